@@ -362,3 +362,57 @@ func (r *rng) failingMessage(t *genType) any {
 	}
 	return m
 }
+
+// wrapSizeMessages: messages of type t in which one list behind a 16-bit count is just long enough that
+// (count x element size) passes 2^16 - a size computed in the prefix type wraps there.  One message per such list
+// field; the element width is the width of the scalar / fixed text, or the encoded size of one nested element.
+func wrapSizeMessages(r *rng, t *genType) (out []any, descs []string) {
+	for i := range t.Fields {
+		f := &t.Fields[i]
+		if prefixMax(f.Cnt) != 65535 {
+			continue
+		}
+		w := 0
+		var elem any
+		switch {
+		case f.Kind == "ints":
+			w = widthOf[f.Ity]
+		case f.Kind == "strs" && f.Wire == "fixedlist":
+			w = f.N
+		case f.Kind == "ptrs":
+			forceListLen = 0
+			elem = r.genMessage(typeById[f.Ref], genOpts{canonical: true})
+			st, enc := encodeFresh(cloneMsg(elem))
+			if st != "ok" {
+				continue
+			}
+			w = len(enc)
+		}
+		if w < 2 {
+			continue
+		}
+		for _, mult := range []int{1, 2} {
+			n := mult*65536/w + 1 + r.intn(2)
+			if n > 65535 {
+				continue
+			}
+			m := r.genMessage(t, genOpts{canonical: true})
+			fv := reflect.ValueOf(m).Elem().Field(i)
+			sl := reflect.MakeSlice(fv.Type(), n, n)
+			for j := 0; j < n; j++ {
+				switch f.Kind {
+				case "ints":
+					setBits(sl.Index(j), r.scalarBits(f.Ity))
+				case "strs":
+					sl.Index(j).SetString(r.fixedText(f, true))
+				case "ptrs":
+					sl.Index(j).Set(reflect.ValueOf(elem))
+				}
+			}
+			fv.Set(sl)
+			out = append(out, m)
+			descs = append(descs, fmt.Sprintf("field %s: %d elements of %d bytes = %d bytes", f.Name, n, w, n*w))
+		}
+	}
+	return
+}
